@@ -23,9 +23,7 @@ C01Step(s, ev) ==
               F1 == <<Forest[ev.doc]>>
               is(d) == ev.status = 0 /\ TransformWith(ev.ss, F1, d).items = got
               tag == IF ok THEN ""
-                     ELSE IF is([builtinPass |-> TRUE, zeroAnyEmpty |-> FALSE]) THEN "KD:builtinRulePassesParams "
-                     ELSE IF is([builtinPass |-> FALSE, zeroAnyEmpty |-> TRUE]) THEN "KD:numberAnyZeroCountGivesEmpty "
-                     ELSE IF is([builtinPass |-> TRUE, zeroAnyEmpty |-> TRUE]) THEN "KD:builtinRulePassesParams+numberAnyZeroCountGivesEmpty "
+                     ELSE IF is([zeroAnyEmpty |-> TRUE]) THEN "KD:numberAnyZeroCountGivesEmpty "
                      ELSE ""
           IN [ok |-> ok, st |-> s, drop |-> FALSE, cont |-> TRUE,
               msg |-> tag \o "status " \o ToString(ev.status) \o " want " \o ToString(r.items) \o " got " \o ToString(got)]
